@@ -62,6 +62,7 @@ func (c *Ctx) evalCall(x *ast.CallExpr, s *State) Value {
 	}
 	if id, ok := fun.(*ast.Ident); ok {
 		if b, ok := c.info().Uses[id].(*types.Builtin); ok {
+			c.atClauses(s, fmt.Sprintf("call %s#%d", b.Name(), c.callOrd[x]), x.Pos())
 			return c.evalBuiltin(b.Name(), x, s)
 		}
 	}
@@ -120,23 +121,23 @@ func (c *Ctx) convert(s *State, v Value, from, to types.Type, at ast.Node) Value
 
 func (c *Ctx) bytesToString(s *State, sl SliceV) Value {
 	c.useStr()
-	c.declareFun("str.of", 4, sInt) // string value of (memory version array, off, len) -- keyed by content via axioms below
+	c.declareFun("gs.of", 4, sInt) // string value of (memory version array, off, len) -- keyed by content via axioms below
 	m := c.heapGet(s, "M.byte", sA2)
 	r := c.fresh("str", sInt)
 	arr := c.fresh("strsrc", sA1)
 	s.assume(eq(arr, sel(m, sl.Ref)))
-	s.assume(eq(app("str.len", r), sl.Len))
-	s.assume(forall([]string{"k"}, "(! "+implies(and(le("0", "k"), lt("k", sl.Len)), eq(app("str.at", r, "k"), sel(arr, add(sl.Off, "k"))))+" :pattern ((str.at "+r+" k)))"))
+	s.assume(eq(app("gs.len", r), sl.Len))
+	s.assume(forall([]string{"k"}, "(! "+implies(and(le("0", "k"), lt("k", sl.Len)), eq(app("gs.at", r, "k"), sel(arr, add(sl.Off, "k"))))+" :pattern ((gs.at "+r+" k)))"))
 	return IntV{r}
 }
 
 func (c *Ctx) stringToBytes(s *State, str string, elem types.Type) Value {
 	c.useStr()
-	n := app("str.len", str)
+	n := app("gs.len", str)
 	sl := c.allocSlice(s, elem, n, n, false)
 	m := c.heapGet(s, memKey(elem), sA2)
 	arr := sel(m, sl.Ref)
-	s.assume(forall([]string{"k"}, "(! "+implies(and(le("0", "k"), lt("k", n)), eq(sel(arr, "k"), app("str.at", str, "k")))+" :pattern ((select "+arr+" k)))"))
+	s.assume(forall([]string{"k"}, "(! "+implies(and(le("0", "k"), lt("k", n)), eq(sel(arr, "k"), app("gs.at", str, "k")))+" :pattern ((select "+arr+" k)))"))
 	s.assume(le(n, maxLen))
 	return sl
 }
@@ -156,7 +157,7 @@ func (c *Ctx) evalBuiltin(name string, x *ast.CallExpr, s *State) Value {
 			return IntV{v.(SliceV).Cap}
 		case *types.Basic:
 			c.useStr()
-			r := app("str.len", asInt(v))
+			r := app("gs.len", asInt(v))
 			s.assume(and(le("0", r), le(r, maxLen)))
 			return IntV{r}
 		case *types.Map:
@@ -268,7 +269,7 @@ func (c *Ctx) evalAppend(x *ast.CallExpr, s *State) Value {
 		av := c.eval(x.Args[1], s)
 		if isStringType(at) {
 			c.useStr()
-			pieces = append(pieces, piece{str: asInt(av), n: app("str.len", asInt(av))})
+			pieces = append(pieces, piece{str: asInt(av), n: app("gs.len", asInt(av))})
 		} else {
 			sv := av.(SliceV)
 			pieces = append(pieces, piece{sl: &sv, n: sv.Len})
@@ -299,7 +300,7 @@ func (c *Ctx) evalAppend(x *ast.CallExpr, s *State) Value {
 				cur = na
 			default:
 				na := c.fresh("apparr", sA1)
-				s.assume(forall([]string{"k"}, "(! "+ite(and(le(pos, "k"), lt("k", add(pos, p.n))), eq(sel(na, "k"), app("str.at", p.str, sub("k", pos))), eq(sel(na, "k"), sel(cur, "k")))+" :pattern ((select "+na+" k)))"))
+				s.assume(forall([]string{"k"}, "(! "+ite(and(le(pos, "k"), lt("k", add(pos, p.n))), eq(sel(na, "k"), app("gs.at", p.str, sub("k", pos))), eq(sel(na, "k"), sel(cur, "k")))+" :pattern ((select "+na+" k)))"))
 				cur = na
 			}
 			pos = add(pos, p.n)
@@ -322,12 +323,13 @@ func (c *Ctx) evalCopy(x *ast.CallExpr, s *State) Value {
 	var n string
 	if isStringType(st) {
 		c.useStr()
-		sl := app("str.len", asInt(sv))
+		sl := app("gs.len", asInt(sv))
 		n = ite(le(dst.Len, sl), dst.Len, sl)
 	} else {
 		n = ite(le(dst.Len, sv.(SliceV).Len), dst.Len, sv.(SliceV).Len)
 	}
 	n = c.nameValue(s, "copyn", IntV{n}).(IntV).T
+	c.noteWrite(s, memKey(elem), dst.Ref)
 	for _, l := range leaves(elem) {
 		key := memKey(elem) + l
 		m := c.heapGet(s, key, sA2)
@@ -335,7 +337,7 @@ func (c *Ctx) evalCopy(x *ast.CallExpr, s *State) Value {
 		na := c.fresh("cparr", sA1)
 		var srcAt string
 		if isStringType(st) {
-			srcAt = app("str.at", asInt(sv), sub("k", dst.Off))
+			srcAt = app("gs.at", asInt(sv), sub("k", dst.Off))
 		} else {
 			src := sv.(SliceV)
 			srcAt = sel(sel(m, src.Ref), add(src.Off, sub("k", dst.Off)))
@@ -608,7 +610,7 @@ func (c *Ctx) havocArgs(s *State, callee *types.Func, args []Value, sig *types.S
 }
 
 func (c *Ctx) havocSliceContents(s *State, sv SliceV, elem types.Type) {
-	c.frameWrite(memKey(elem), sv.Ref)
+	c.noteWrite(s, memKey(elem), sv.Ref)
 	for _, l := range leaves(elem) {
 		key := memKey(elem) + l
 		m := c.heapGet(s, key, sA2)
@@ -1013,6 +1015,7 @@ func (c *Ctx) beRead(s *State, arr, off string, n int) string {
 // bePut writes v big-endian into sv[0:n]: the new array agrees with the old one elsewhere, the n cells are bytes,
 // and their big-endian sum is v (stated in sum form, justified by lemma put-be).
 func (c *Ctx) bePut(s *State, sv SliceV, v string, n int) {
+	c.noteWrite(s, "M.byte", sv.Ref)
 	m := c.heapGet(s, "M.byte", sA2)
 	old := sel(m, sv.Ref)
 	cur := old
